@@ -79,7 +79,12 @@ RULE = ("rec: attribute tables drawn from the kinds {bound method with (min,max)
         "line, inside each multi-byte character, at random into 2..8 pieces, byte at a time; every 2-piece cut for the fragmentation corpus "
         "and a sample of methods with non-ASCII arguments; bodies of 4..16 KB; HTTP/1.0, keep-alive, close, UTF-8 header value; 2..4 requests "
         "on one connection); collect: byte strings (UTF-8 of texts with 1..4-byte characters, damaged by truncation / overlong forms / "
-        "surrogates / stray bytes) x every 2-piece cut, byte at a time, random cuts; groups: real daemons x {no failure, child log directory "
+        "surrogates / stray bytes) x every 2-piece cut, byte at a time, random cuts; connection reuse: after every request of every "
+        "end-to-end population whose connection stays open (always after an answer given later, a sample after answers given at once) a "
+        "second read-only request follows on that connection; sessions of 2..5 requests on one connection x HTTP variant per request "
+        "(persistent, keep-alive, closing: the client reconnects) x any call incl. the ones answered later (start/stop with wait, group and "
+        "all forms, clearAllProcessLogs, multicalls containing them; against the e2e world and against 1..3 processes following scripts) "
+        "followed by any other call; groups: real daemons x {no failure, child log directory "
         "removed, ValueError injected in after_setuid / make_group} x 4 moods x {program, numprocs program, eventlistener, fcgi-program "
         "on a missing directory / busy port / good socket, unknown and non-ASCII names} x add-add-remove-remove and random sequences "
         "with rewritten configuration + reloadConfig; waits: deferred methods (single, group:*, ProcessGroup, AllProcesses, multicall of 2..4 calls) x "
@@ -900,9 +905,47 @@ def judge_response(ctx, method, out, deferred, inp, cuts=None, noresp_kind=None,
     return res
 
 
+FOLLOWUPS = [('supervisor.getAPIVersion', []), ('system.listMethods', []), ('supervisor.getState', []), ('supervisor.nosuch', []),
+             ('system.methodHelp', ['supervisor.getPID']), ('supervisor.getIdentification', []), ('supervisor.getProcessInfo', ['n\u00e9ant'])]
+FOLLOWUP_SHARE = {True: 1.0, False: 0.12}       # after an answer given later (deferred): always; after one given at once: a sample
+_FORCE_FOLLOWUP = [None]                         # replay: the follow-up request of the replayed input [method, params, cuts]
+
+
+def follow_up(ctx, w, handler, method, params, deferred, inp):
+    """the connection has stayed open after the answer to `method` (HTTP/1.1 persistent, HTTP/1.0 keep-alive): the NEXT request
+    on it -- a read-only call whose answer is known from the interface objects themselves -- must be answered like any other:
+    never an HTTP error, and what the direct call gives"""
+    rng = ctx.rng
+    if _FORCE_FOLLOWUP[0] is not None:
+        m2, p2, cuts2 = _FORCE_FOLLOWUP[0]
+    else:
+        m2, p2 = rng.choice(FOLLOWUPS)
+        cuts2 = auto_cuts(rng, m2, p2) if rng.random() < 0.3 else None
+    raw2, _ = build_raw(m2, p2, '1.1')
+    out2, polls2, deferred2, never2 = w.exchange(raw2, cuts2 or None)
+    inp2 = dict(inp, followup=[m2, p2, cuts2])
+    after = 'after-deferred-answer' if deferred else 'after-immediate-answer'
+    ctx.count('followup:' + after)
+    ctx.case_done(('followup', method, repr(params), m2, repr(p2), repr(cuts2), deferred), nontrivial=True)
+    what = 'the request following %s%s (%s) on the same kept-alive connection, %s%s%s' % (
+        method, short(tuple(params)), 'answered later: deferred' if deferred else 'answered at once', m2, short(tuple(p2)),
+        ' in pieces cut at %r' % cuts2 if cuts2 else '')
+    res2 = judge_response(ctx, m2, out2, deferred2, inp2, cuts2, 'no-answer-on-kept-alive-connection:' + after, server_said(w))
+    if res2.get('status') == 'no-response':
+        return
+    if res2.get('status') != 200:
+        ctx.violation('http-error-on-kept-alive-connection:' + after, '%s produced HTTP %s' % (what, res2.get('status')), inp2)
+        return
+    direct = direct_call(handler.rpcinterface, m2, p2)
+    if not same_as_direct(res2, direct):
+        ctx.violation('answer-depends-on-connection-reuse', '%s answered %r %r; the direct call gives %r'
+                      % (what, res2.get('answer'), res2.get('fault_string'), direct), inp2)
+
+
 def wire_request(handler, method, params, between_polls=None, max_polls=80, replay_input=None, cuts=None, http='1.1',
                  noresp_kind=None, ticks=None):
-    """One XML-RPC request on a fresh connection (see Wire), delivered in the pieces given by `cuts`.
+    """One XML-RPC request on a fresh connection (see Wire), delivered in the pieces given by `cuts`; when the connection stays
+    open after the answer, a second request follows on it (follow_up).
     -> dict(status, headers, body, cl, polls, deferred, answer, fault_string)"""
     ctx = _CTX[0]
     w = Wire(handler)
@@ -910,13 +953,16 @@ def wire_request(handler, method, params, between_polls=None, max_polls=80, repl
         raw, hlen = build_raw(method, params, http)
         out, polls, deferred, never = w.exchange(raw, cuts, between_polls, max_polls, ticks)
         said = server_said(w)
+        inp = replay_input or {'part': 'e2e-wire', 'method': method, 'params': params}
+        if never:
+            return {'polls': polls, 'deferred': deferred, 'status': never}
+        res = judge_response(ctx, method, out, deferred, inp, cuts, noresp_kind, said)
+        res['polls'], res['deferred'] = polls, deferred
+        if isinstance(res.get('status'), int) and not w.closed and hasattr(handler, 'rpcinterface') and ctx.prop == ID \
+                and (_FORCE_FOLLOWUP[0] is not None or ctx.rng.random() < FOLLOWUP_SHARE[bool(deferred)]):
+            follow_up(ctx, w, handler, method, params, deferred, inp)
     finally:
         w.close()
-    if never:
-        return {'polls': polls, 'deferred': deferred, 'status': never}
-    inp = replay_input or {'part': 'e2e-wire', 'method': method, 'params': params}
-    res = judge_response(ctx, method, out, deferred, inp, cuts, noresp_kind, said)
-    res['polls'], res['deferred'] = polls, deferred
     return res
 
 
@@ -1235,44 +1281,146 @@ def big_text(rng, nbytes, pad):
     return ''.join(out)
 
 
-def session_case(ctx, reqs, mood=1, plans=None):
-    """several requests one after another on ONE connection (what xmlrpclib's keep-alive transport and supervisorctl
-    do), each cut at random: every answer is the answer the same sequence gets on separate connections"""
+_CONNS = []            # (requests of one connection as 'd0,i0,...', how each was served 'a,a,...') for the connection correspondence
+SESSION_HTTP = ['1.1', '1.1', '1.1', '1.1', '1.0-keepalive', '1.0-keepalive', '1.1-utf8-header', '1.0', '1.1-close']
+
+
+def session_case(ctx, reqs, mood=1, plans=None, scripts=None, https=None, regression=None):
+    """several requests one after another on ONE connection (what xmlrpclib's keep-alive transport, supervisorctl within one
+    action and most XML-RPC client libraries do), each cut at random, each as some HTTP variant (persistent, keep-alive, or
+    closing -- then the client connects anew); the calls are answered at once or LATER (start/stop with wait, the group and
+    all forms, clearAllProcessLogs, multicalls containing them).  Every answer is the answer the same sequence gets on
+    separate connections, and none of these valid calls produces an HTTP error.
+    scripts: None -- the world of e2e_world;  process scripts -- WaitWorld, one tick per main-loop iteration while an answer is pending"""
     rng = ctx.rng
+    https = list(https or ['1.1'] * len(reqs))
+    bound = (max(len(sc['traj']) for sc in scripts) + 8) if scripts else 80
     def play(one_connection, plans):
-        sup, iface, h = e2e_world(ctx, mood)
-        keys, w = [], None
+        if scripts:
+            world = WaitWorld(scripts)
+            h, n = world.handler, [0]
+            def tick(_k):
+                world.tick(n[0]); n[0] += 1
+        else:
+            sup, iface, h = e2e_world(ctx, mood)
+            tick = None
+        keys, recs, w = [], [], None
         try:
             for i, (m, p) in enumerate(reqs):
-                if w is None or not one_connection:
+                if w is None or not one_connection or w.closed:
                     if w: w.close()
                     w = Wire(h)
-                raw, hlen = build_raw(m, p, '1.1')
-                out, polls, deferred, never = w.exchange(raw, plans[i])
-                inp = {'part': 'e2e-session', 'reqs': [[m_, p_] for m_, p_ in reqs], 'plans': plans_used, 'mood': mood}
+                raw, hlen = build_raw(m, p, https[i])
+                out, polls, deferred, never = w.exchange(raw, plans[i], None, bound, tick)
                 if never:
-                    keys.append(('http', never)); continue
+                    keys.append(('http', never)); break
                 said = server_said(w)
                 res = judge_response(ctx, m, out, deferred, inp, plans[i], 'no-answer-on-reused-connection' if one_connection else None, said)
                 keys.append(answer_key(res))
+                recs.append((deferred, bool(w.closed), res.get('status')))      # (closed: the server hung up after the answer)
         finally:
             if w: w.close()
-        return keys
+        return keys, recs
     plans_used = list(plans or [])
-    for m, p in (reqs if plans is None else []):
-        raw, hlen = build_raw(m, p, '1.1')
+    for (m, p), http in (zip(reqs, https) if plans is None else []):
+        raw, hlen = build_raw(m, p, http)
         mb = inside_char_cuts(raw)
         r = rng.random()
-        plans_used.append(None if r < 0.2 else [rng.choice(mb)] if (mb and r < 0.6) else random_cuts(rng, len(raw), rng.randrange(1, 5)))
-    want = play(False, [None] * len(reqs))
-    got = play(True, plans_used)
+        plans_used.append(None if r < 0.3 else [rng.choice(mb)] if (mb and r < 0.6) else random_cuts(rng, len(raw), rng.randrange(1, 5)))
+    inp = {'part': 'e2e-session', 'reqs': [[m_, p_] for m_, p_ in reqs], 'plans': plans_used, 'mood': mood, 'scripts': scripts, 'https': https}
+    if regression:
+        inp['regression'] = regression
+    want, _ = play(False, [None] * len(reqs))
+    got, recs = play(True, plans_used)
     ctx.count('frag:sessions'); ctx.count('frag:session-requests', len(reqs))
-    ctx.case_done(('e2e-session', repr(reqs), repr(plans_used)), nontrivial=True)
+    for k, (d, c, st) in enumerate(recs):
+        ctx.count('session:answer-%s-%s' % ('deferred' if d else 'at-once', 'then-closed' if c else 'kept-alive'))
+        if k and not recs[k - 1][1]:
+            ctx.count('session:request-after-%s-answer-on-the-same-connection' % ('deferred' if recs[k - 1][0] else 'immediate'))
+    if recs and len(recs) <= 12 and len(_CONNS) < 6000:
+        _CONNS.append((','.join(('d' if d else 'i') + ('1' if c else '0') for d, c, st in recs),
+                       ','.join('a' if st == 200 else 's' if st == 400 else 'x' for d, c, st in recs)))
+    ctx.case_done(('e2e-session', repr(reqs), repr(plans_used), repr(scripts), repr(https)), nontrivial=True)
+    for k, key in enumerate(got):
+        if key[0] == 'http' and key[1] not in ('no-response', 'never-completes'):
+            prev = recs[k - 1] if 0 < k <= len(recs) else None
+            ctx.violation('http-error-on-kept-alive-connection:after-%s-answer' % ('deferred' if prev[0] else 'immediate') if prev and not prev[1]
+                          else 'http-error:' + reqs[k][0],
+                          'request %d (%s%s, as %s, cuts %r) of a session on one connection produced HTTP %s%s; on its own connection it answers %s'
+                          % (k, reqs[k][0], short(tuple(reqs[k][1])), https[k], plans_used[k], key[1],
+                             ' -- it follows %s%s, which was answered %s and left the connection open' % (
+                                 reqs[k - 1][0], short(tuple(reqs[k - 1][1])), 'later (deferred)' if prev[0] else 'at once') if prev and not prev[1] else '',
+                             short(want[k]) if k < len(want) else '?'), inp)
+            return
     if got != want and not any(k == ('http', 'no-response') for k in got):
-        k = next(i for i in range(len(reqs)) if got[i] != want[i])
+        k = next((i for i in range(min(len(got), len(want))) if got[i] != want[i]), min(len(got), len(want)))
         ctx.violation('answer-depends-on-connection-reuse', 'request %d (%s%s) on a reused connection, cuts %r, answers %s; on its own connection %s'
-                      % (k, reqs[k][0], short(tuple(reqs[k][1])), plans_used[k], short(got[k]), short(want[k])),
-                      {'part': 'e2e-session', 'reqs': [[m_, p_] for m_, p_ in reqs], 'plans': plans_used, 'mood': mood})
+                      % (k, reqs[k][0], short(tuple(reqs[k][1])), plans_used[k], short(got[k]) if k < len(got) else 'nothing', short(want[k]) if k < len(want) else 'nothing'),
+                      inp)
+
+
+def run_conn(ctx):
+    """how the requests of every session were served vs Model/Rpc.lean serveAll; an RPCError raised at once / later vs raisedBecomesFault"""
+    from supervisor import xmlrpc
+    seen, ops, il = set(), [], []
+    for op, line in _CONNS:
+        if op not in seen:
+            seen.add(op); ops.append('conn ' + op); il.append(line)
+            ctx.case_done(('conn', op), nontrivial=',' in op)
+    for d in (0, 1):
+        sup, iface, subs2 = deferred_world()
+        res = wire_request(xmlrpc.supervisor_xmlrpc_handler(sup, subs2), 'slow.slow', [d, 'fault'] if d else [0, 'raise-now'])
+        ops.append('raised %d' % d)
+        il.append('fault' if res.get('answer', ('', ''))[0] == 'fault' else 'value' if res.get('answer', ('', ''))[0] == 'value' else 'other')
+        ctx.case_done(('raised', d), nontrivial=True)
+    ctx.count('conn:distinct-sessions', len(ops) - 2)
+    ctx.sample({'case': 'rpc conn', 'ops': ops[:2] + ops[-2:], 'impl': il[:2] + il[-2:]})
+    ctx.correspond('conn', [('case rpc', ops)], [il])
+
+
+def settle(rng, sc, kind):
+    """the process comes to rest in a state a call of this kind does not wait in"""
+    from supervisor.states import ProcessStates as P
+    sc['traj'] = sc['traj'] + [[0, rng.choice([P.RUNNING, P.BACKOFF, P.FATAL, P.EXITED, P.STOPPED] if kind == 'start' else [P.STOPPED, P.EXITED, P.FATAL])]]
+    return sc
+
+
+SESSION_IMMEDIATE = [('supervisor.getAPIVersion', []), ('supervisor.getState', []), ('supervisor.getAllProcessInfo', []), ('supervisor.nosuch', []),
+                     ('supervisor.getIdentification', []), ('system.listMethods', []), ('supervisor.getProcessInfo', ['n\u00e9ant']),
+                     ('supervisor.getPID', [1]), ('system.multicall', [[{'methodName': 'supervisor.getPID', 'params': []}]])]
+# the input of seeded change C12-7 (demo.py): five calls on one keep-alive connection, the second and the fourth answered later
+SESSION_CORPUS = [
+    [('supervisor.getAPIVersion', []), ('supervisor.stopAllProcesses', []), ('supervisor.getAPIVersion', []),
+     ('system.multicall', [[{'methodName': 'supervisor.stopAllProcesses', 'params': []}, {'methodName': 'supervisor.getAPIVersion', 'params': []}]]),
+     ('supervisor.getIdentification', [])],
+    [('supervisor.clearAllProcessLogs', []), ('supervisor.getState', [])],
+    [('supervisor.startAllProcesses', [True]), ('supervisor.getState', []), ('supervisor.stopProcessGroup', ['grp', True]), ('supervisor.nosuch', [])],
+]
+
+
+def gen_session_wait(rng):
+    """a session whose calls are answered later, against processes that follow scripts"""
+    n = rng.randrange(1, 4)
+    kind = rng.choice(['start', 'stop'])
+    scripts = [settle(rng, gen_script(rng, 'p%d' % i, kind), kind) for i in range(n)]
+    if rng.random() < 0.6:
+        for sc in scripts:
+            sc['on_spawn'], sc['on_stop'] = 10, 40
+    def deferred_call():
+        r = rng.random()
+        if r < 0.4:
+            return ('supervisor.%sProcess' % kind, ['grp:p%d' % rng.randrange(n), True])
+        if r < 0.7:
+            return rng.choice([f for f in WAIT_GROUP_FORMS if wait_kind(f[0]) == kind])
+        if r < 0.8:
+            return ('supervisor.clearAllProcessLogs', [])
+        calls = [rng.choice([('supervisor.%sProcess' % kind, ['grp:p%d' % rng.randrange(n), True]), rng.choice(SESSION_IMMEDIATE[:5]),
+                             rng.choice([f for f in WAIT_GROUP_FORMS if wait_kind(f[0]) == kind])]) for _ in range(rng.randrange(2, 4))]
+        return ('system.multicall', [[{'methodName': m, 'params': p} for m, p in calls]])
+    reqs = []
+    for _ in range(rng.randrange(2, 6)):
+        reqs.append(deferred_call() if rng.random() < 0.55 else rng.choice(SESSION_IMMEDIATE))
+    return reqs, scripts
 
 
 def run_frag(ctx):
@@ -1303,8 +1451,22 @@ def run_frag(ctx):
                 ctx.count('frag:big-bodies')
     # ---- connection reuse
     pool = list(FRAG_CORPUS) + [('supervisor.getState', []), ('supervisor.getAllProcessInfo', []), ('supervisor.nosuch', []), ('supervisor.getPID', [1])]
+    later = [('supervisor.stopAllProcesses', []), ('supervisor.clearAllProcessLogs', []), ('supervisor.startAllProcesses', [True]),
+             ('supervisor.stopProcessGroup', ['grp', True]), ('supervisor.startProcessGroup', ['grp']), ('supervisor.stopProcess', ['grp:*']),
+             ('system.multicall', [[{'methodName': 'supervisor.getPID', 'params': []}, {'methodName': 'supervisor.clearAllProcessLogs', 'params': []}]]),
+             ('system.multicall', [[{'methodName': 'supervisor.stopAllProcesses', 'params': [True]}, {'methodName': 'supervisor.getProcessInfo', 'params': ['n\u00e9ant']}]])]
+    for reqs in SESSION_CORPUS:
+        for http in ('1.1', '1.0-keepalive'):
+            session_case(ctx, reqs, https=[http] * len(reqs), regression='C12-7')
+            session_case(ctx, reqs, https=[http] * len(reqs), plans=[None] * len(reqs), regression='C12-7')
     for _ in range(ctx.n(40, 400)):
         session_case(ctx, [rng.choice(pool) for _ in range(rng.randrange(2, 5))])
+    for _ in range(ctx.n(60, 600)):         # any call, the ones answered later included, followed by any other call
+        reqs = [rng.choice(later) if rng.random() < 0.5 else rng.choice(pool) for _ in range(rng.randrange(2, 6))]
+        session_case(ctx, reqs, mood=rng.choice([1, 1, 1, 1, 0, -1]), https=[rng.choice(SESSION_HTTP) for _ in reqs])
+    for _ in range(ctx.n(80, 900)):         # ... against processes that take their time (start/stop with wait, group and all forms)
+        reqs, scripts = gen_session_wait(rng)
+        session_case(ctx, reqs, scripts=scripts, https=[rng.choice(SESSION_HTTP) for _ in reqs])
 
 
 def run_e2e(ctx):
@@ -1356,6 +1518,8 @@ class SlowNs(object):
     def slow(self, k, kind):
         from supervisor.http import NOT_DONE_YET
         from supervisor.xmlrpc import RPCError
+        if kind == 'raise-now':
+            raise RPCError(70, 'sl\u00f6w')
         left = [int(k)]
         def cb():
             self.log.append('poll')
@@ -2756,6 +2920,7 @@ def run(ctx):
     _CTX[0] = ctx
     del _FRAMES[:]
     del _BODIES[:]
+    del _CONNS[:]
     run_e2e(ctx)
     run_logstates(ctx)
     run_frag(ctx)
@@ -2766,6 +2931,7 @@ def run(ctx):
     run_groups(ctx)
     run_collect(ctx)
     run_frames(ctx)
+    run_conn(ctx)
 
 
 
@@ -2775,6 +2941,7 @@ def replay(ctx, data):
     _CTX[0] = ctx
     inp = data['input']
     part = inp.get('part')
+    _FORCE_FOLLOWUP[0] = inp.get('followup')
     if part == 'rec':
         log = []
         spec = spec_from_entries(inp['entries'])
@@ -2818,7 +2985,8 @@ def replay(ctx, data):
     elif part == 'groups':
         groups_case(ctx, inp['scenario'], inp['mood'], [(m, p) for m, p in inp['ops']], tuple(inp.get('started', ('multi',))))
     elif part == 'e2e-session':
-        session_case(ctx, [(m, p) for m, p in inp['reqs']], inp.get('mood', 1), plans=inp['plans'])
+        session_case(ctx, [(m, p) for m, p in inp['reqs']], inp.get('mood', 1), plans=inp['plans'], scripts=inp.get('scripts'), https=inp.get('https'),
+                     regression=inp.get('regression'))
     elif part == 'wait':
         wait_case(ctx, [(m, p) for m, p in inp['calls']], inp['scripts'], inp.get('cuts'), inp.get('regression'))
     elif part == 'logs':
@@ -2839,12 +3007,16 @@ TECHNIQUE = ("Lean 4 theorems over a model of traverse() on an arbitrary attribu
              "(AST of rpcinterface.py, xmlrpc.py, docs/api.rst) and a step-function model of system.multicall; differential "
              "correspondence against the real traverse/multicall/interfaces and the real XML-RPC handler; fragmentation invariance of the "
              "request's way in (body collector, header buffer: generated expressions) with a proved UTF-8 encode/decode round trip, and "
-             "delivery (fragmentation, HTTP variant, connection reuse) as a dimension of every end-to-end request")
+             "delivery (fragmentation, HTTP variant, connection reuse) as a dimension of every end-to-end request; the hand-over of "
+             "the channel between the requests of one connection (where current_request is reset / tested / set: extracted by role) as a "
+             "model with a theorem for every request sequence, and the except-RPCError handlers of both answer paths as generated facts")
 LEVEL_TEXT = ("traverse_closed / refused_executes_nothing / arity_fault for every attribute table and every name; gating for every "
               "documented process-control and configuration method (no exception; F39 fixed in e65d15a) by decide over the whole generated "
               "table; every raised fault name is a constant of Faults; multicall = the calls one after another for every call list, "
               "every deferred-callback behaviour and every tick schedule; the text handed to continue_request is the decoding of the "
-              "whole body for every way of cutting the request into pieces (and is the client's text for every text)")
+              "whole body for every way of cutting the request into pieces (and is the client's text for every text); every request "
+              "of every sequence on one connection (answers at once or deferred, kept alive or closed) is dispatched as a new request, "
+              "never handed to an answered one; an RPCError raised at once or by a deferred callback is answered as a fault")
 LEVEL_NOTE = ("'never 500 / never hangs' is partial: proved for name resolution, arity, gating and the log methods; the method bodies and the "
               "HTTP plumbing are exercised through the real handler, not proved")
 DESIGN_REF = "DESIGN.md section 6, C12"
